@@ -96,7 +96,7 @@ def unit_fn(unit: Tuple[str, List[Dict[str, Any]]]) -> Part:
 
 
 def units_for(ctx: Ctx) -> List[Tuple[str, List[Dict[str, Any]]]]:
-    return space.layer_a_units(ctx.quick) + space.layer_c_units(ctx.quick) + space.layer_c_units(ctx.quick, overlap=True)
+    return space.layer_a_units(ctx.quick) + space.layer_b_units(ctx.quick) + space.layer_c_units(ctx.quick) + space.layer_c_units(ctx.quick, overlap=True)
 
 
 def run(ctx: Ctx) -> None:
